@@ -364,3 +364,39 @@ func (c *Ctx) CallText(pos token.Pos) string {
 	}
 	return types.ExprString(ce)
 }
+
+// FuncOfSyntax returns the SSA function built from the given *ast.FuncDecl or
+// *ast.FuncLit (module packages only; nil for bodies that were not built).
+func (c *Ctx) FuncOfSyntax(n ast.Node) *ssa.Function {
+	if c.synIndex == nil {
+		c.synIndex = map[ast.Node]*ssa.Function{}
+		for fn := range ssautil.AllFunctions(c.Prog) {
+			if fn.Origin() != nil || !FuncInModule(fn) {
+				continue
+			}
+			if syn := fn.Syntax(); syn != nil {
+				c.synIndex[syn] = fn
+			}
+		}
+	}
+	return c.synIndex[n]
+}
+
+// InnermostFuncSyntax returns the innermost *ast.FuncLit or *ast.FuncDecl of
+// file-level declaration fd that encloses pos.
+func InnermostFuncSyntax(fd *ast.FuncDecl, pos token.Pos) ast.Node {
+	var best ast.Node = fd
+	ast.Inspect(fd, func(n ast.Node) bool {
+		if n == nil {
+			return false
+		}
+		if pos < n.Pos() || pos >= n.End() {
+			return false
+		}
+		if fl, ok := n.(*ast.FuncLit); ok {
+			best = fl
+		}
+		return true
+	})
+	return best
+}
